@@ -203,7 +203,7 @@ func runC17(c *Ctx, r *Report, tier string) {
 			r.Check(strings.HasPrefix(t, "("+colExpr+" - call:unicode/utf8.RuneCountInString("), "COLUMN", c.fname(wh), "argument rows: padding", c.ipos(in), "description column − characters of the argument prefix", "padding is "+trunc(t, 140))
 		case t == "2":
 			// the leading indent of an argument row
-		case strings.HasPrefix(t, "(call:maxCommandLength("):
+		case strings.HasPrefix(t, "(call:maxCommandLength("), strings.HasPrefix(t, "(phi{len(Command.Name(idx(call:(*Command).sortedVisibleCommands("), strings.HasPrefix(t, "(phi{phi{len(Command.Name(idx("), strings.HasPrefix(t, "(phi{0 | phi{len(Command.Name(idx(call:(*Command).sortedVisibleCommands("):
 			// command list column, independent of the description column
 		default:
 			r.Fail("COLUMN", c.fname(wh), "Repeat count", c.ipos(in), "unexpected padding expression "+trunc(t, 140))
